@@ -24,7 +24,7 @@ import re
 ORGANIC = ("Cl", "Br", "B", "C", "N", "O", "P", "S", "F", "I")
 AROMATIC = ("b", "c", "n", "o", "p", "s")
 BRACKET = re.compile(
-    r"^\[(\d*)([A-Z][a-z]?|[a-z][a-z]?)(@{0,2})(?:H(\d?))?((?:\+\+*|--*|[+-]\d+)?)(?::(\d+))?\]$")
+    r"^\[(\d*)([A-Z][a-z]?|[a-z][a-z]?)(@{0,2})(?:H(\d?))?((?:\+\+*|--*|[+-]\d+)?)(?::(\d+))?\]\Z")
 BOND_ORDER = {"-": 1, "=": 2, "#": 3, ":": 1.5, "/": 1, "\\": 1}
 MARKS = ("/", "\\")
 
@@ -87,7 +87,10 @@ def read_atom(tok):
     return a
 
 
-def read_smiles(s, tolerant=False, ring_across_dot=True):
+def read_smiles(s, tolerant=False, ring_across_dot=True, dot_in_branch=False):
+    """dot_in_branch: OpenSMILES allows '.' inside a parenthesised branch (the next atom is then not bonded to anything
+    before it, the enclosing chain resumes at ')'); selfies.encoder documents that as unsupported, so it is only read when
+    asked for"""
     atoms = []
     i, n = 0, len(s)
     prev = None           # index of the atom the next item attaches to (None at fragment start)
@@ -97,6 +100,7 @@ def read_smiles(s, tolerant=False, ring_across_dot=True):
     bonded = set()
     just_opened = False   # directly after '('
     after_branch = False  # directly after ')' (ring digits illegal in strict mode)
+    detached = False      # directly after a '.' inside a branch: the next atom starts a new component
     if n == 0:
         raise SmiError("empty")
 
@@ -131,6 +135,10 @@ def read_smiles(s, tolerant=False, ring_across_dot=True):
             if i == n:
                 raise SmiError("dangling bond")
             continue
+        if c == "." and dot_in_branch and (stack or just_opened) and pending is None and i + 1 < n and not detached:
+            detached = True
+            i += 1
+            continue
         if c == ".":
             if pending is not None or stack or just_opened:
                 raise SmiError("bad dot")
@@ -145,7 +153,7 @@ def read_smiles(s, tolerant=False, ring_across_dot=True):
                 raise SmiError("trailing dot")
             continue
         if c == "(":
-            if pending is not None or prev is None or just_opened:
+            if pending is not None or prev is None or just_opened or detached:
                 raise SmiError("bad (")
             stack.append(prev)
             just_opened = True
@@ -153,7 +161,7 @@ def read_smiles(s, tolerant=False, ring_across_dot=True):
             i += 1
             continue
         if c == ")":
-            if pending is not None or not stack or just_opened:
+            if pending is not None or not stack or just_opened or detached:
                 raise SmiError("bad )")
             prev = stack.pop()
             after_branch = True
@@ -169,7 +177,7 @@ def read_smiles(s, tolerant=False, ring_across_dot=True):
                 lab = c
                 i += 1
             lab = int(lab)
-            if prev is None or just_opened:
+            if prev is None or just_opened or detached:
                 raise SmiError("ring digit without atom")
             if after_branch and not tolerant:
                 raise SmiError("ring digit after branch")
@@ -199,7 +207,11 @@ def read_smiles(s, tolerant=False, ring_across_dot=True):
         a.pos = start
         atoms.append(a)
         idx = len(atoms) - 1
-        if prev is None and not just_opened:
+        if detached:
+            if pending is not None:
+                raise SmiError("bond symbol after dot")
+            detached = False
+        elif prev is None and not just_opened:
             if pending is not None and not tolerant:
                 raise SmiError("leading bond")
         else:
